@@ -70,5 +70,5 @@ func Verif_C05_roundtrip_ptr() {
 	verifAssert(got.Key == sent.Key, "path part parsed back equal")
 	verifAssert(got.P != nil && *got.P == p, "*int form part parsed back equal (pointee)")
 	verifAssert(got.H != nil && *got.H == h, "*int header part parsed back equal (pointee)")
-	verifReach("roundtrip-ptr") // not listed under "reach" while the finding is open: list it once httpc is fixed
+	verifReach("roundtrip-ptr")
 }
